@@ -159,7 +159,7 @@ class Check:
         for h in rep["Harnesses"]:
             h["_ctx"] = ctx
             probs = h.get("Problems") or []
-            if soft_trunc and h.get("Truncated") and all(("truncated" in pr or "wall budget" in pr) for pr in probs) and not (h.get("Unknowns") or []):
+            if soft_trunc and probs and (h.get("Truncated") or any("wall budget" in pr for pr in probs)) and all(("truncated" in pr or "wall budget" in pr) for pr in probs) and not (h.get("Unknowns") or []):
                 rep["_truncated"].append(h["Name"])
                 if soft_trunc == "record":
                     # explored but not exhausted: counted in the statistics, flagged incomplete, listed under not_covered
